@@ -62,7 +62,8 @@ pub fn run_c17(tier: Tier) -> i32 {
     let mut seqs: Vec<Vec<Kind>> = vec![vec![]];
     // all sequences of length 1..=5 with repetitions
     let mut layer: Vec<Vec<Kind>> = vec![vec![]];
-    for _ in 0..5 {
+    let max_len = if tier == Tier::Quick { 5 } else { 7 };
+    for _ in 0..max_len {
         let mut next = vec![];
         for s in &layer {
             for k in Kind::ALL {
@@ -172,7 +173,7 @@ pub fn run_c17(tier: Tier) -> i32 {
     rec.set_extra("long_lists_(9_to_67_entries_and_repeated_subsets)", json!(n_long));
     rec.finish(
         "model_checking",
-        "complete enumeration: every sequence of value kinds of length 0..5 with repetitions (8^0+…+8^5) every permutation of every one of the 256 subsets, and long lists (9–67 entries: every pair of kinds repeated 4–33 times followed by every kind / pair of kinds; every subset forwards, backwards and cyclically with 1–4 repetitions); states = distinct kind sets, transitions = sequences evaluated; each evaluated on the real value_kinds_description_json and compared with an independent specification that is a function of the set only (so equality implies order- and multiplicity-independence). distinct = distinct phrases produced.",
+        "complete enumeration: every sequence of value kinds of length 0..5 (quick) / 0..7 (thorough) with repetitions (8^0+…+8^n) every permutation of every one of the 256 subsets, and long lists (9–67 entries: every pair of kinds repeated 4–33 times followed by every kind / pair of kinds; every subset forwards, backwards and cyclically with 1–4 repetitions); states = distinct kind sets, transitions = sequences evaluated; each evaluated on the real value_kinds_description_json and compared with an independent specification that is a function of the set only (so equality implies order- and multiplicity-independence). distinct = distinct phrases produced.",
         &["the specification function kinds_phrase_spec (mc-core/src/pure.rs) states the documented phrase rules"],
     )
 }
@@ -295,7 +296,7 @@ pub fn run_c18(tier: Tier) -> i32 {
     let mut outcomes: HashSet<u64> = HashSet::new();
     let mut states = 0u64;
     // (a) all pairs over {a,b,c}^≤L
-    let l1 = if tier == Tier::Quick { 6 } else { 7 };
+    let l1 = if tier == Tier::Quick { 6 } else { 8 };
     let w1 = words(&['a', 'b', 'c'], l1);
     let next = AtomicUsize::new(0);
     let pair_outcomes = std::sync::Mutex::new(HashSet::<u64>::new());
@@ -483,7 +484,7 @@ pub fn run_c18(tier: Tier) -> i32 {
     rec.set_extra("alphabet_pairs_length", json!(l1));
     rec.finish(
         "model_checking",
-        "complete enumeration of four finite spaces: (a) every (received, single candidate) pair over {a,b,c}^≤6 (quick) / ^≤7 (thorough); (a') every pair over {a,b,c}^≤4 behind a common prefix of 5 / 10 / 15 / 22 bytes, so that every distance 0..4 is met in every budget class 2..5 (transposition-with-insertion shapes distinguish true Damerau–Levenshtein from optimal string alignment only from budget 2 on); (b) every pair over {a,é}^≤7 (byte length ≠ char length, crossing the 3/4, 7/8 and 12/13 byte thresholds); (c) for byte lengths 3,4,7,8,12,13,17,18,24,25,30,40 (ascii and multi-byte bases) candidates at every distance 0..7 built by substitution / deletion / insertion / transposition, singly and in all ordered pairs; (b') every pair over {a, 日, 😀}^≤4 bare and behind 5 / 10 ASCII bytes; (c') received strings of 62…258 and 1000 bytes built from 2-, 3- and 4-byte characters behind 0–3 ASCII bytes, so that a character straddles every byte offset; (d) every candidate list of length 0..3 over a 12-string pool (ties, exact matches, empty string, duplicates) for 60 received strings. Oracle: independent unrestricted Damerau–Levenshtein over chars, budget by byte length, earliest minimal candidate; output empty or exactly `did you mean `X`? `.",
+        "complete enumeration of four finite spaces: (a) every (received, single candidate) pair over {a,b,c}^≤6 (quick) / ^≤8 (thorough); (a') every pair over {a,b,c}^≤4 behind a common prefix of 5 / 10 / 15 / 22 bytes, so that every distance 0..4 is met in every budget class 2..5 (transposition-with-insertion shapes distinguish true Damerau–Levenshtein from optimal string alignment only from budget 2 on); (b) every pair over {a,é}^≤7 (byte length ≠ char length, crossing the 3/4, 7/8 and 12/13 byte thresholds); (c) for byte lengths 3,4,7,8,12,13,17,18,24,25,30,40 (ascii and multi-byte bases) candidates at every distance 0..7 built by substitution / deletion / insertion / transposition, singly and in all ordered pairs; (b') every pair over {a, 日, 😀}^≤4 bare and behind 5 / 10 ASCII bytes; (c') received strings of 62…258 and 1000 bytes built from 2-, 3- and 4-byte characters behind 0–3 ASCII bytes, so that a character straddles every byte offset; (d) every candidate list of length 0..3 over a 12-string pool (ties, exact matches, empty string, duplicates) for 60 received strings. Oracle: independent unrestricted Damerau–Levenshtein over chars, budget by byte length, earliest minimal candidate; output empty or exactly `did you mean `X`? `.",
         &["the reference distance is the textbook unrestricted Damerau–Levenshtein (self-checked on known values at start-up)"],
     )
 }
@@ -517,7 +518,7 @@ fn c19_rec(
 pub fn run_c19(tier: Tier) -> i32 {
     let rec = Recorder::new("C19", tier);
     let alphabet = vec![Step::Key("a".into()), Step::Key("b".into()), Step::Index(0), Step::Index(1)];
-    let max = if tier == Tier::Quick { 6 } else { 9 };
+    let max = if tier == Tier::Quick { 6 } else { 11 };
     let n = std::cell::Cell::new(0u64);
     let mut outcomes: HashSet<u64> = HashSet::new();
     let mut check = |p: deserr::ValuePointerRef, steps: &[Step]| {
@@ -619,7 +620,7 @@ pub fn run_c19(tier: Tier) -> i32 {
     rec.sample(json!({"path": ".a[0].b", "to_owned": format!("{:?}", deserr::ValuePointerRef::Origin.push_key("a").push_index(0).push_key("b").to_owned().path)}));
     rec.finish(
         "model_checking",
-        "complete enumeration of every path of ≤ 6 (quick) / ≤ 9 (thorough) steps over {key a, key b, index 0, index 1}, built as real ValuePointerRef chains by recursion, every path of ≤ 4 steps over {empty key, key `a.b[0]`, key `é`, index usize::MAX} and over {key `tags[]`, key `[]`, key `.`, index 1}, plus the first 2000 paths of each of the next six lengths over a second alphabet and four paths of each length 100, 127–130, 255–257, 1000, 5000. Oracle: to_owned().path lists exactly the pushed steps in order; is_origin ⇔ no step; first_field / last_field = first / last key step or None.",
+        "complete enumeration of every path of ≤ 6 (quick) / ≤ 11 (thorough) steps over {key a, key b, index 0, index 1}, built as real ValuePointerRef chains by recursion, every path of ≤ 4 steps over {empty key, key `a.b[0]`, key `é`, index usize::MAX} and over {key `tags[]`, key `[]`, key `.`, index 1}, plus the first 2000 paths of each of the next six lengths over a second alphabet and four paths of each length 100, 127–130, 255–257, 1000, 5000. Oracle: to_owned().path lists exactly the pushed steps in order; is_origin ⇔ no step; first_field / last_field = first / last key step or None.",
         &["ValuePointerComponent is not exported by deserr, so the owned path is compared through its Debug rendering"],
     )
 }
@@ -801,7 +802,7 @@ fn c13_check_value(v: &serde_json::Value, errs: &mut Vec<String>) {
 
 pub fn run_c13(tier: Tier) -> i32 {
     let rec = Recorder::new("C13", tier);
-    let max_nodes = if tier == Tier::Quick { 3 } else { 4 };
+    let max_nodes = if tier == Tier::Quick { 3 } else { 5 };
     let keys = ["", "a", "b"];
     let by = c13_texts(max_nodes, &keys);
     let texts: Vec<&String> = by.iter().flatten().collect();
@@ -966,7 +967,7 @@ pub fn run_c13(tier: Tier) -> i32 {
     }
     rec.finish(
         "model_checking",
-        "complete enumeration of every JSON document with ≤ 3 (quick) / ≤ 4 (thorough) nodes over keys {\"\", a, b} and 26 leaf literals given as *text* (0, -0, -0.0, u64::MAX, u64::MAX+1, i64::MIN, i64::MIN-1, i64::MAX, i64::MAX+1, 2^53-1, 2^53, 2^53+1, 1.0, 1e2, subnormals, f64::MAX, strings, booleans, null), parsed by serde_json. Oracle per document (self-relative): deserialize::<Value,_,_>(v) == Ok(v) with no report, also through the second value source; Value::from(v.into_value()) == v (structurally and as text, so -0.0 vs 0 is seen); kind() == into_value().kind() for v and every sub-value; numbers classified by serde_json's own text form of the number (no . / e ⇒ integer, sign ⇒ negative) and carried exactly. distinct = distinct document texts.",
+        "complete enumeration of every JSON document with ≤ 3 (quick) / ≤ 5 (thorough) nodes over keys {\"\", a, b} and 26 leaf literals given as *text* (0, -0, -0.0, u64::MAX, u64::MAX+1, i64::MIN, i64::MIN-1, i64::MAX, i64::MAX+1, 2^53-1, 2^53, 2^53+1, 1.0, 1e2, subnormals, f64::MAX, strings, booleans, null), parsed by serde_json. Oracle per document (self-relative): deserialize::<Value,_,_>(v) == Ok(v) with no report, also through the second value source; Value::from(v.into_value()) == v (structurally and as text, so -0.0 vs 0 is seen); kind() == into_value().kind() for v and every sub-value; numbers classified by serde_json's own text form of the number (no . / e ⇒ integer, sign ⇒ negative) and carried exactly. distinct = distinct document texts.",
         &["classification reference = the text serde_json itself prints for the number it holds"],
     )
 }
@@ -1040,7 +1041,7 @@ fn same_value(a: &Doc, b: &Doc) -> bool {
 pub fn run_c05(tier: Tier) -> i32 {
     let rec = Recorder::new("C05", tier);
     // ---- payload values ----
-    let range: i128 = if tier == Tier::Quick { 70_000 } else { 1_100_000 };
+    let range: i128 = if tier == Tier::Quick { 70_000 } else { 4_200_000 };
     let mut ints: BTreeSet<i128> = (-range..=range).collect();
     for k in 0..=64u32 {
         let p = 1i128 << k;
